@@ -890,7 +890,7 @@ pub fn guest_export_params_have_allocations(resolve: &Resolve, func: &Function) 
 fn needs_deallocate(resolve: &Resolve, ty: &Type, what: Deallocate) -> bool {
     match ty {
         Type::String => true,
-        Type::ErrorContext => true,
+        Type::ErrorContext => false,
         Type::Id(id) => match &resolve.types[*id].kind {
             TypeDefKind::List(_) => true,
             TypeDefKind::Type(t) => needs_deallocate(resolve, t, what),
